@@ -37,7 +37,7 @@ def run_in_seed(seed, sess):
     env = dict(os.environ)
     env["PYTHONHASHSEED"] = seed
     root = os.path.dirname(os.path.dirname(os.path.dirname(os.path.abspath(__file__))))
-    env["PYTHONPATH"] = "/repo:" + root
+    env["PYTHONPATH"] = common.REPO + ":" + root
     p = subprocess.run([sys.executable, "-m", "harness.seedrun"], input=json.dumps(sess).encode(), env=env,
                        stdout=subprocess.PIPE, stderr=subprocess.PIPE, cwd=os.path.dirname(os.path.dirname(os.path.dirname(os.path.abspath(__file__)))),
                        timeout=3000)
